@@ -454,13 +454,6 @@ fn check(case: &Case) -> CheckResult {
                 acceptable_heads.iter().map(|h| h[..12].to_string()).collect::<Vec<_>>()
             )));
         }
-        let log_out = env.jj(
-            &ws,
-            &["log", "--ignore-working-copy", "-r", "all()", "--no-graph", "-T", "commit_id ++ \"\\n\""],
-        );
-        if !log_out.success() {
-            return Err(Violation::new(format!("{at}: `jj log` fails: {}", log_out.brief())));
-        }
         // (b) stored objects parse / re-hash.
         validate_stores(&repo_dir, case.simple_backend)
             .map_err(|e| Violation::new(format!("{at}: {e}")))?;
@@ -596,14 +589,13 @@ pub fn run(report: &mut Report) {
                 matches!(
                     c.cmd,
                     Cmd::Commit | Cmd::NewOnRoot | Cmd::Squash | Cmd::Undo | Cmd::WorkspaceAdd | Cmd::EditParent
-                        | Cmd::SparseSet | Cmd::Abandon
                 )
             })
             .collect(),
         crate::engine::runner::Tier::Thorough => battery,
     };
     report.enumerate_par("battery", false, quick_battery, check);
-    report.prop("generated", tier.pick(8, 150), case_strategy, check);
+    report.prop("generated", tier.pick(2, 150), case_strategy, check);
     report.set_extra(
         "crash_runs",
         serde_json::json!(CRASH_RUNS.load(std::sync::atomic::Ordering::Relaxed)),
